@@ -13,18 +13,19 @@ type Entry struct {
 
 // Step is one rule of a frontend, in order.
 type Step struct {
-	Kind    string  `json:"kind"`    // setvar | use | default | deny | intercept | redirect | other
-	Var     string  `json:"var"`     // setvar: variable assigned; use: variable holding the backend name ("" = static)
-	Key     string  `json:"key"`     // setvar: base (host#path) | defbase (<default>#path) | host | sni
-	Lower   bool    `json:"lower"`   //
-	Method  string  `json:"method"`  // str | dir | beg | reg
-	Entries []Entry `json:"entries"` //
-	Guard   string  `json:"guard"`   // setvar: only if this variable was not found yet ("" = always)
-	HasHdr  bool    `json:"hashdr"`  // setvar: guarded by header filters (not interpreted)
-	Target  string  `json:"target"`  // use (static) / default: backend name
-	Found   string  `json:"found"`   // use: `if { var(X) -m found }`
-	Cond    string  `json:"cond"`    // any other condition, raw
-	Raw     string  `json:"raw"`
+	Kind    string   `json:"kind"`    // setvar | use | default | deny | intercept | redirect | other
+	Var     string   `json:"var"`     // setvar: variable assigned; use: variable holding the backend name ("" = static)
+	Key     string   `json:"key"`     // setvar: base (host#path) | defbase (<default>#path) | host | sni
+	Lower   bool     `json:"lower"`   //
+	Method  string   `json:"method"`  // str | dir | beg | reg
+	Entries []Entry  `json:"entries"` //
+	Guard   string   `json:"guard"`   // setvar: only if this variable was not found yet ("" = always); the first of Guards
+	Guards  []string `json:"guards"`  // setvar: every variable that must not have been found yet
+	HasHdr  bool     `json:"hashdr"`  // setvar: guarded by header filters (not interpreted)
+	Target  string   `json:"target"`  // use (static) / default: backend name
+	Found   string   `json:"found"`   // use: `if { var(X) -m found }`
+	Cond    string   `json:"cond"`    // any other condition, raw
+	Raw     string   `json:"raw"`
 }
 
 // Frontend is the ordered rule list of one frontend section.
@@ -59,7 +60,7 @@ func (r *Raw) FrontendNF(name string) *Frontend {
 		}
 		f := &Frontend{Name: name, Steps: []Step{}}
 		for _, l := range s.Lines {
-			st := Step{Raw: l, Entries: []Entry{}}
+			st := Step{Raw: l, Entries: []Entry{}, Guards: []string{}}
 			switch {
 			case reSetVar2.MatchString(l):
 				m := reSetVar2.FindStringSubmatch(l)
@@ -89,8 +90,11 @@ func (r *Raw) FrontendNF(name string) *Frontend {
 					}
 				}
 				rest := m[3]
-				if g := reNotFound.FindStringSubmatch(rest); g != nil {
-					st.Guard = g[1]
+				for _, g := range reNotFound.FindAllStringSubmatch(rest, -1) {
+					if st.Guard == "" {
+						st.Guard = g[1]
+					}
+					st.Guards = append(st.Guards, g[1])
 					rest = strings.Replace(rest, g[0], "", 1)
 				}
 				st.HasHdr = strings.Contains(rest, "hdr(")
@@ -226,7 +230,7 @@ func (r *Raw) BackendNF(name string) *BackendNF {
 			if mc == nil {
 				continue
 			}
-			st := Step{Kind: "setvar", Var: m[1], Method: mc[1], Raw: l, Entries: []Entry{}}
+			st := Step{Kind: "setvar", Var: m[1], Method: mc[1], Raw: l, Entries: []Entry{}, Guards: []string{}}
 			switch {
 			case strings.HasPrefix(m[2], "var(req.base)"):
 				st.Key = "base"
